@@ -19,7 +19,17 @@ def _herm_cf(d):
     return mk
 
 
+def _nn(qd):
+    def mk(L, p):
+        # hand-built nearest-neighbour Hamiltonian with a site-dependent parameter pattern (seeded by the generic parameters)
+        r = np.random.default_rng(abs(int(p[0] * 1e9)) % (2 ** 32))
+        return gen.nn_pattern_hamiltonian(r, np.array(qd), L)[0]
+    return mk
+
+
 MODELS = {
+    'nn2q': (_nn([1, -1]), [1, -1]),
+    'nn3': (_nn([0, 0, 0]), [0, 0, 0]),
     'herm2': (_herm_cf(2), [0, 0]),
     'herm3': (_herm_cf(3), [0, 0, 0]),
     'xxz': (lambda L, p: ptn.heisenberg_xxz_mpo(L, *p), [1, -1]),
@@ -130,9 +140,15 @@ def make_exact(cases):
 
 
 def reversibility(ctx, idx, rng):
-    src = str(rng.choice(['xxz', 'xxz1', 'bose3', 'ising', 'hermitian', 'hermitian']))
+    src = str(rng.choice(['xxz', 'xxz1', 'bose3', 'ising', 'hermitian', 'hermitian', 'nn-pattern']))
     kind = str(rng.choice(['complex', 'real']))
-    if src == 'hermitian':
+    if src == 'nn-pattern':
+        d = int(rng.choice([2, 3]))
+        L = int(rng.integers(1, 6 if d == 2 else 4))
+        qd = rng.integers(-1, 2, size=d) if rng.random() < 0.5 else np.zeros(d, dtype=int)
+        H, pat, _ = gen.nn_pattern_hamiltonian(rng, qd, L, cplx=bool(rng.random() < 0.5))
+        src = 'nn-' + pat
+    elif src == 'hermitian':
         d = int(rng.choice([2, 3]))
         L = int(rng.integers(1, 6 if d == 2 else 4))
         qd = rng.integers(-1, 2, size=d) if rng.random() < 0.5 else np.zeros(d, dtype=int)
